@@ -52,6 +52,30 @@ def install_shims(periodic_modules=("svr_threads",)):
             st.Housekeeper._vf_orig_init(self, daemon)
             self.stop = S.CoopEvent("tick")
         st.Housekeeper.__init__ = hinit
+    cooperate_static_locks()
+
+
+def cooperate_static_locks():
+    """locks that the library creates at import time (module globals, class attributes) were made before the shims existed:
+    replace them by cooperative ones, or a thread preempted while holding one would block the others for real (idempotent)"""
+    import sys
+    import threading
+    import inspect
+    real = (type(threading.Lock()), type(threading.RLock()))
+    n = 0
+    for modname, m in list(sys.modules.items()):
+        if m is None or not (modname == "Pyro5" or modname.startswith("Pyro5.")):
+            continue
+        for k, v in list(vars(m).items()):
+            if isinstance(v, real):
+                setattr(m, k, S.CoopLock(isinstance(v, real[1]), "%s.%s" % (modname, k)))
+                n += 1
+            elif inspect.isclass(v) and getattr(v, "__module__", None) == modname:
+                for ck, cv in list(vars(v).items()):
+                    if isinstance(cv, real):
+                        setattr(v, ck, S.CoopLock(isinstance(cv, real[1]), "%s.%s.%s" % (modname, k, ck)))
+                        n += 1
+    return n
 
 
 def reset_worker_counter():
